@@ -23,7 +23,14 @@ fn catalogue(r: &mut Rng, conn: usize) -> (i64, Vec<u8>) {
     let z = format!("z{}", conn); let z = z.as_bytes();
     let n = format!("n{}", conn); let n = n.as_bytes();
     let big = vec![b'q'; *r.pick(&[100usize, 3000, 9000, 20000])];
-    match r.below(62) {
+    match r.below(68) {
+        // replies whose text comes from the client, built by a script: one well-formed reply each
+        62 => (K_ERR, cmd(&[b"EVAL", b"return {err=ARGV[1]}", b"0", b"MYERR a\r\n+OK\r\n:1"])),
+        63 => (K_OK, cmd(&[b"EVAL", b"return {ok=ARGV[1]}", b"0", b"fine\r\n-ERR injected\r\n"])),
+        64 => (K_ERR, cmd(&[b"EVAL", b"return redis.error_reply(ARGV[1])", b"0", b"X\ny\rz"])),
+        65 => (K_OK, cmd(&[b"EVAL", b"return redis.status_reply(ARGV[1])", b"0", b"multi\r\nline"])),
+        66 => (K_ERR, cmd(&[b"EVAL", b"return redis.call(ARGV[1], ARGV[2])", b"0", b"NOSUCH\r\nCMD", b"x"])),
+        67 => (K_ERR, cmd(&[b"EVAL", b"error(ARGV[1])", b"0", b"boom\r\n+OK"])),
         0 => (K_OK, cmd(&[b"PING"])),
         1 => (K_OK, cmd(&[b"PING", b"hello"])),
         2 => (K_OK, cmd(&[b"SET", s, b"value"])),
